@@ -372,3 +372,127 @@ class LockState:
             if p[0] == var:
                 return p[1]
         return None
+
+
+class Hooks:
+    """default call hooks of Inliner (rules override what they need)"""
+
+    def pre_call(self, n, cf, args, st):
+        return [st]
+
+    def post_call(self, n, cf, st, rv):
+        return [st]
+
+    def ret_value(self, e, st):
+        return None
+
+    def problem(self, msg, n):
+        pass
+
+
+class Inliner:
+    """CFG.explore with calls to `own` functions followed: the callee's CFG is explored from the state at the call site
+    (lock state, automaton state and event sequence carried through) and exploration continues behind the call with each
+    of the callee's exit states.  Summaries are memoised per (callee, entry state)."""
+
+    def __init__(self, tu, is_own, max_depth=8):
+        self.tu = tu
+        self.is_own = is_own
+        self.max_depth = max_depth
+        self.stack = []
+        self.at = None          # (block id, engine state) at the start of the current block of the top-level function
+        self.memo = {}
+
+    @property
+    def depth(self):
+        return len(self.stack) - 1
+
+    def chain(self):
+        return ['in %s (%s)' % (f['q'], self.tu.fn_loc(f)) for f in self.stack[1:]]
+
+    def callee(self, n):
+        """function entry if the call node `n` is followed"""
+        tu = self.tu
+        if n is None or n.get('kind') not in CALLS:
+            return None
+        cf = tu.callee_fn(n)
+        if cf is None or cf.get('dep') or tu.cfg(cf) is None:
+            return None
+        return cf if self.is_own(cf) else None
+
+    def args(self, n, cf):
+        ks = self.tu.kids(n)
+        a = ks[1:]
+        if n.get('kind') == 'CXXOperatorCallExpr' and len(a) == len(cf.get('params', [])) + 1:
+            a = a[1:]           # the object expression of a member operator (e.g. a closure's operator())
+        return a
+
+    def reachable_fns(self, f):
+        """f and every own function reachable from it through followed calls"""
+        tu = self.tu
+        seen, todo = {f['id']: f}, [f]
+        while todo:
+            x = todo.pop()
+            g = tu.cfg(x)
+            if g is None:
+                continue
+            for _b, _i, n in g.stmts():
+                cf = self.callee(n)
+                if cf is not None and cf['id'] not in seen:
+                    seen[cf['id']] = cf
+                    todo.append(cf)
+        return list(seen.values())
+
+    def explore(self, f, inits, transfer, refine=None, hooks=None):
+        """returns (exploration of f's own CFG over engine states (rule_state, retval), [(rule_state, retval, via_block)])"""
+        hooks = hooks or Hooks()
+        self.memo = {}
+        self.stack = []
+        res, outs = self._run(f, list(inits), transfer, refine, hooks)
+        return res, outs
+
+    def _run(self, f, inits, transfer, refine, hooks):
+        tu = self.tu
+        g = tu.cfg(f)
+        self.stack.append(f)
+        top = len(self.stack) == 1
+
+        def tr(blk, i, e, st):
+            rs, rv = st
+            if top and i == 0:
+                self.at = (blk.id, st)
+            n = tu.node(e[1]) if e[0] == 'S' else None
+            cf = self.callee(n)
+            if cf is not None:
+                if any(x['id'] == cf['id'] for x in self.stack) or len(self.stack) >= self.max_depth:
+                    hooks.problem('recursive or too deep helper call chain through %s' % cf['q'], n)
+                    return [st]
+                outs = []
+                for rs1 in hooks.pre_call(n, cf, self.args(n, cf), rs):
+                    key = (cf['id'], rs1)
+                    if key not in self.memo:
+                        self.memo[key] = self._run(cf, [rs1], transfer, refine, hooks)[1]
+                    for (rs2, rv2, _via) in self.memo[key]:
+                        for rs3 in hooks.post_call(n, cf, rs2, rv2):
+                            if (rs3, rv) not in outs:
+                                outs.append((rs3, rv))
+                return outs
+            if n is not None and n.get('kind') == 'ReturnStmt':
+                ks = tu.kids(n)
+                rv = hooks.ret_value(ks[0], rs) if ks else None
+            return [(r, rv) for r in transfer(blk, i, e, rs)]
+
+        def rf(blk, si, st):
+            rs, rv = st
+            return [(r, rv) for r in (refine(blk, si, rs) if refine else [rs])]
+
+        res = g.explore([(s, None) for s in inits], tr, rf)
+        self.stack.pop()
+        outs = []
+        for (st, via) in res.exits:
+            if g.blocks[via].noret:
+                continue
+            o = (st[0], st[1], via)
+            if o not in outs:
+                outs.append(o)
+        return res, outs
